@@ -1099,7 +1099,7 @@ Section LockStepRun.
     induction n as [|n IH]; intros s Q; cbn [ideal_run]; [reflexivity|].
     destruct (quiescent_poll s Q) as [Q1 G1].
     destruct (poll cr g s (ipin s)) as [s1 r]. cbn [fst] in Q1, G1. unfold gl in G1.
-    destruct r; rewrite gens_all_cons, G1, ?gens_all_nil; try reflexivity. cbn [app]. apply IH. exact Q1.
+    destruct r; rewrite gens_all_cons, G1; try reflexivity. cbn [app]. apply IH. exact Q1.
   Qed.
 
   Lemma sim_done_quiescent sr sd : Sim g sr sd -> all_done g sd -> Quiescent sr.
@@ -1124,7 +1124,7 @@ Section LockStepRun.
     cbn [fst snd] in *. unfold gl in G1.
     destruct V as [-> | [-> ->]].
     - destruct R as [[-> A]|[-> _]].
-      + rewrite !gens_all_cons, G1, gens_all_nil. f_equal. apply quiescent_run.
+      + rewrite !gens_all_cons, G1. f_equal. rewrite quiescent_run; [reflexivity|].
         eapply sim_done_quiescent; eauto.
       + rewrite !gens_all_cons, G1. f_equal. apply IH; auto.
     - rewrite !gens_all_cons, G1. reflexivity.
@@ -1132,7 +1132,7 @@ Section LockStepRun.
 
   Lemma Sim_init : Sim g (init g) (init g).
   Proof.
-    constructor; try reflexivity; [apply Dry_init | apply map_length | |]; intros x; cbn; tauto.
+    constructor; try reflexivity; [apply Dry_init | apply map_length |]; intros x; cbn; tauto.
   Qed.
 
   (** C17_same_scripts: the dry run generates the scripts of the same instances in the same
